@@ -41,6 +41,16 @@ def gen_case(rng):
                 a = list(ents)
                 rng.shuffle(a)
                 t[name] = gen.deep(a)
+    if rng.random() < 0.12:
+        # list entries (maps, lists) that differ ONLY by the kind of a value nested inside them, or by where a string is
+        # cut: {port: 8080} / {port: "8080"}, ["--level", "3"] / ["--level", 3], {cmd: "run env:prod"} / {cmd: run, env: prod}
+        variants = [({"port": 8080}, {"port": "8080"}), (["--level", "3"], ["--level", 3]), ({"cmd": "run env:prod"}, {"cmd": "run", "env": "prod"}),
+                    ({"on": True}, {"on": "true"}), ({"n": 1}, {"n": 1.5}), ([1, [2]], [1, ["2"]]), ({"a": {"b": 1}}, {"a": {"b": "1"}})]
+        va, vb = rng.choice(variants)
+        shared = rng.choice([[], ["same"], [{"k": "v"}]])
+        nm = rng.choice(["args", "ports"])
+        for i, t in enumerate(trees):
+            t[nm] = gen.deep(shared + [va if i % 2 == 0 else vb])
     return {"inputs": trees, "fmts": [rng.choice(FMTS) for _ in trees]}
 
 
